@@ -508,7 +508,7 @@ func (e *Engine) addEnvIntrinsics() {
 		env := c.s.env
 		path := c.args[0]
 		flags := c.int(1)
-		env.openLog = append(env.openLog, c.s.evalDescribe(path))
+		// all decisions first (a forked state re-executes this call from the start), mutations after
 		fail := false
 		if env.faultOpen {
 			k := c.s.choose(c.w, 2)
@@ -516,13 +516,17 @@ func (e *Engine) addEnvIntrinsics() {
 			fail = k == 1
 		}
 		dir, name := splitPath(c, path)
+		ix := -1
 		if !fail && !env.dirExists(dir) {
 			fail = true
 		}
+		if !fail {
+			ix = env.find(c, dir, name)
+		}
+		env.openLog = append(env.openLog, c.s.evalDescribe(path))
 		if fail {
 			return Tuple{Ptr{}, c.s.newError(strConcat(strConcat("open ", path), ": no such file or directory"))}
 		}
-		ix := env.find(c, dir, name)
 		if ix < 0 {
 			if flags&0x40 == 0 { // O_CREATE
 				return Tuple{Ptr{}, c.s.newError(strConcat(strConcat("open ", path), ": no such file or directory"))}
@@ -730,6 +734,7 @@ func (e *Engine) addEnvIntrinsics() {
 			return uint64(n)
 		}
 		in[p+"vFSOpenAttempts"] = func(c *callCtx) Value { return uint64(len(c.s.env.openLog)) }
+		in[p+"vFSWriteCount"] = func(c *callCtx) Value { return uint64(c.s.env.writes) }
 		in[p+"vClockMode"] = func(c *callCtx) Value {
 			m := c.int(0)
 			c.s.env.clockSym = m != 0
